@@ -56,7 +56,7 @@ let () =
            | None -> print_endline "NONE"
            | Some (_, items) ->
              print_endline ("wf " ^ String.concat "," (List.map (function
-                 | UTok _ -> "t" | UClose _ -> "x" | UNested run -> Printf.sprintf "n%d" (List.length run)) items)))
+                 | UTok _ -> "t" | UClose _ -> "x") items)))
         | _ -> print_endline "BAD"
       with Failure m -> print_endline ("BAD " ^ m))
     done
